@@ -1244,7 +1244,7 @@ def gen_shape_modules(cases, dropped=()):
     order.sort()
     main = ["// generated by /verif/vlib/c19.py (call shapes)", "package main", "", "import ("]
     main += ['\t"c19prog/ck"', '\t"c19prog/pyx"'] + ['\t"c19prog/%s"' % pkg for _, pkg in order] + ['', '\t"github.com/goplus/lib/c"', ")", ""]
-    main.append('func main() {\n\tif p := pyx.Getenv(c.Str("C19_SKIP")); p != nil {\n\t\tck.Skip = int(c.Atoi(p))\n\t}')
+    main.append('func main() {\n\tif p := pyx.Getenv(c.Str("C19_ONLY")); p != nil {\n\t\tck.Only = int(c.Atoi(p))\n\t}')
     main += ["\t%s.Run()" % pkg for _, pkg in order]
     main.append('\tprintln("END")\n}')
     files["main.go"] = "\n".join(main) + "\n"
@@ -1277,26 +1277,24 @@ def parse_shape_protocol(text):
     return obs, cur, other
 
 
-def run_shape_protocol(cmd, env, ncases, timeout=120):
-    """every case that kills the process is attributed: the run is restarted behind it -> obs, {id: status}, outside"""
+def run_shape_cases(cmd, env, ids, timeout=120):
+    """one process per case (C19_ONLY=<id>): a case that kills the process, or hands Python something that damages the
+    interpreter, cannot touch the verdict of another case -> obs {id: lines}, crashed {id: (status, output tail)}"""
+    def one(i):
+        e = dict(env)
+        e["C19_ONLY"] = str(i)
+        st, so, _ = C.run_exe(cmd[0], args=cmd[1:], timeout=timeout, env=e, merge=True)
+        o, _, other = parse_shape_protocol(so)
+        return i, st, o.get(i), "END" in other, so[-600:]
     obs = {}
     crashed = {}
-    skip = 0
-    for _ in range(ncases + 2):
-        e = dict(env)
-        e["C19_SKIP"] = str(skip)
-        st, so, _ = C.run_exe(cmd[0], args=cmd[1:], timeout=timeout, env=e, merge=True)
-        o, last, other = parse_shape_protocol(so)
-        for k, v in o.items():
-            if k >= skip:
-                obs[k] = v
-        if st == 0 and "END" in other:
-            return obs, crashed, None
-        if last is None or last < skip:
-            return obs, crashed, (st, so[-1500:])
-        crashed[last] = (st, so[-600:])
-        skip = last + 1
-    return obs, crashed, ("restart limit", "")
+    with ThreadPoolExecutor(max_workers=4) as ex:
+        for i, st, lines, ended, tail in ex.map(one, ids):
+            if lines is not None:
+                obs[i] = lines
+            if st != 0 or not ended:
+                crashed[i] = (st, tail)
+    return obs, crashed
 
 
 def llgo_build_verbose(moddir, out, rundir, timeout=1500):
@@ -1332,10 +1330,11 @@ def part_callshapes(chk):
     twin = os.path.join(rd, "twin.py")
     with open(twin, "w") as f:
         f.write(gen_shape_twin(cases))
-    robs, rcr, rout = run_shape_protocol([sys.executable, twin], py_env({"VERIF_C19_HOOK": "0"}), len(cases))
+    st, so, _ = C.run_exe(sys.executable, args=[twin], timeout=300, env=py_env({"VERIF_C19_HOOK": "0"}), merge=True)
+    robs, _, rother = parse_shape_protocol(so)
     rbad = [(shape_case_key(cases[i]), robs.get(i), exp[i]) for i in range(len(cases)) if robs.get(i) != exp[i]]
-    if rcr or rout or rbad:
-        raise C.Undecided("self-validation failed: python3 itself disagrees with PyCallShapes on %d cases, e.g. %s %s" % (len(rbad), rbad[:2], rout))
+    if st != 0 or "END" not in rother or rbad:
+        raise C.Undecided("self-validation failed: python3 itself disagrees with PyCallShapes on %d cases, e.g. %s %s" % (len(rbad), rbad[:2], so[-600:]))
     # build; a package the compiler cannot compile is reported for its cases and left out of the next attempt
     dropped = {}
     exe = None
@@ -1365,10 +1364,11 @@ def part_callshapes(chk):
             "this case" if len(ids) == 1 else "%d cases" % len(ids), m.group(0) if m else "see replay"),
             {"cases": [cases[i] for i in ids[:4]], "package": files_of(cases, pkg), "llgo_output_tail": out})
     built = [i for i, c in enumerate(cases) if shape_pkg_of(i, c) not in dropped]
-    obs, crashed, outside = run_shape_protocol([exe], py_env({"VERIF_C19_HOOK": "0"}), len(cases))
-    if outside:
-        chk.reject("callshapes:died-outside-a-case", "the call-shape program ended with status %s outside any case" % (outside[0],),
-                   {"status": outside[0], "output_tail": outside[1]})
+    obs, crashed = run_shape_cases([exe], py_env({"VERIF_C19_HOOK": "0"}), built)
+    if not obs and crashed:
+        st0, tail0 = crashed[built[0]]
+        chk.reject("callshapes:died-outside-a-case", "the call-shape program ends with status %s before it reaches any case (interpreter "
+                   "start-up, module import, symbol loading)" % (st0,), {"status": st0, "output_tail": tail0})
         return
 
     def judge_shapes(expected):
@@ -1380,10 +1380,10 @@ def part_callshapes(chk):
         wrong[passing[-1]] = [ln.replace("T[", "T[X,", 1) for ln in exp[passing[-1]]]
         if passing[-1] not in judge_shapes(wrong):
             raise C.Undecided("negative control not flagged: the call-shape comparison does not compare anything")
-    bad = judge_shapes(exp)
+    bad = sorted(set(judge_shapes(exp)) | set(crashed))
     for i in bad:
         c = cases[i]
-        key = shape_case_key(c) + (":crash" if i in crashed else "")
+        key = shape_case_key(c)          # (whether damaged arguments kill the process depends on the memory layout: not part of the key)
         what = "the program died in this case (%s); " % (crashed[i][0],) if i in crashed else ""
         chk.reject(key, "%sobserved %r, the spec says %r" % (what, obs.get(i), exp[i]),
                    {"case": c, "expected": exp[i], "observed": obs.get(i), "go_calls": shape_go_calls(c),
